@@ -116,6 +116,7 @@ type world struct {
 	seen  *url.URL
 	calls int
 	pool  map[string]bool // reference membership: what the add/remove calls made so far define
+	nreq  int             // requests sent with a cookie (selects the Cookie header layout)
 }
 
 func (w *world) upsert(u *url.URL, opts ...roundrobin.ServerOption) {
@@ -193,7 +194,25 @@ type result struct {
 func (w *world) do(c *http.Cookie) result {
 	req := httptest.NewRequest("GET", "http://client/", nil)
 	if c != nil {
-		req.AddCookie(&http.Cookie{Name: c.Name, Value: c.Value})
+		// the affinity cookie as a client would serialise it, placed in one of four layouts (cycling): alone; after
+		// another cookie in the same line; in a SECOND Cookie header line; in the middle of three lines
+		tmp := httptest.NewRequest("GET", "http://client/", nil)
+		tmp.AddCookie(&http.Cookie{Name: c.Name, Value: c.Value})
+		crumb := tmp.Header.Get("Cookie")
+		switch w.nreq % 4 {
+		case 0:
+			req.Header.Add("Cookie", crumb)
+		case 1:
+			req.Header.Add("Cookie", "other=1; "+crumb)
+		case 2:
+			req.Header.Add("Cookie", "other=1")
+			req.Header.Add("Cookie", crumb)
+		default:
+			req.Header.Add("Cookie", "first=1")
+			req.Header.Add("Cookie", crumb)
+			req.Header.Add("Cookie", "last=1; theme=dark")
+		}
+		w.nreq++
 	}
 	rec := httptest.NewRecorder()
 	before := w.calls
